@@ -365,6 +365,7 @@ cat > tgt.do <<'DO'
 if [ -e ../kill-now ]; then rm -f ../kill-now; kill -9 $PPID; exit 1; fi
 redo-ifchange src
 @OUTPUT@
+if [ -e ../kill-after-stamp ]; then rm -f ../kill-after-stamp; kill -9 $PPID; exit 1; fi
 DO
 echo v1 > src
 if [ "@PRIOR@" != never-built ]; then
@@ -375,6 +376,7 @@ if [ "@PRIOR@" != never-built ]; then
     echo v2 > src
 fi
 [ '@CRASH@' = script ] && : > ../kill-now
+[ '@CRASH@' = script-after-stamp ] && : > ../kill-after-stamp
 VERIF_CRASH='@CRASH@' LD_PRELOAD="$SHIM" redo-ifchange tgt >../killed.log 2>&1
 echo "killed-rc=$?"
 redo-ifchange tgt >../recovery.log 2>&1
@@ -402,6 +404,10 @@ CRASH_SPEC = {
     'after-job-start-before-script-writes-stdout': 'script',
     'after-job-start-before-script-creates-$3': 'script',
     'after-job-start-before-end': 'script',
+    # killed after the script's redo-stamp committed, before redo put the output in place
+    'after-script-redo-stamp-before-rename': 'script-after-stamp',
+    'after-script-redo-stamp-before-create': 'script-after-stamp',
+    'after-script-redo-stamp-before-unlink': 'script-after-stamp',
 }
 
 
@@ -540,6 +546,8 @@ def make_replay(chk, rep, scn):
             import os
             sc = w['script']
             output = 'cat src > $3' if sc['has3'] else ('cat src' if sc['stdout'] else ':')
+            if sc.get('stamps'):
+                output += '\nredo-stamp < $3' if sc['has3'] else '\ncat src | redo-stamp'
             if sc['rv']:
                 output += '\nexit 1'
             script = (CRASH_SCENARIO.replace('@OUTPUT@', output).replace('@PRIOR@', w['prior_state'])
@@ -561,6 +569,11 @@ def make_replay(chk, rep, scn):
                 return stale_now, 'real binaries, redo killed %s (%s): the next redo-ifchange exits %s and leaves the target at %r ' \
                                   '(a from-scratch build gives %r)' % (w['crash_point'], CRASH_SPEC[w['crash_point']],
                                                                       lines.get('recovery-rc'), lines.get('after-recovery'), want_rec)
+            if kind == 'recovery-error':
+                broken = lines.get('recovery-rc') not in ('0',) and ('panicked' in out or lines.get('recovery-rc') == '101')
+                return broken, 'real binaries, redo killed %s (%s): the next redo-ifchange exits %s%s' % (
+                    w['crash_point'], CRASH_SPEC[w['crash_point']], lines.get('recovery-rc'),
+                    ''.join(' | ' + l for l in out.split('\n') if l.startswith('RECOVERY-LOG'))[:500])
             if kind == 'stale-tmp':
                 broken = lines.get('recovery-rc') != '0' or lines.get('tmpfiles') != '0'
                 return broken, 'real binaries, redo killed %s (%s): the next redo-ifchange exits %s, %s temporary file(s) left%s' % (
@@ -716,11 +729,9 @@ def start_self_facts(chk, pid):
             w.fs[tuple(dn)] = tuple(S1) if k else None
         w.fs[tuple(TMP_NAME)] = [None, tuple(S2)][eng.choose(2, 'stale tmp file')]
         w.do_firstline = LazyVal(lambda: [b'echo hi\n', b'#!/bin/sh -x\n'][eng.choose(2, 'shebang')], 'firstline')
-        # representation invariant of every real history: a row is marked generated only together with a stamp
-        # (record_new_state and set_failed, the only writers of is_generated=true, store one)
+        # no representation invariant is assumed: in particular a row may be marked generated without a recorded stamp
+        # (redo-stamp on a first build that was then killed leaves exactly that)
         g, stp = w.cell(T_ID, 'is_generated'), w.cell(T_ID, 'stamp')
-        if stp is None:
-            eng.assume(z3.Not(g))
         st['row0'] = dict(w.files[T_ID])       # the row before the job (lazy cells stay lazy until the code looks at them)
         st.update(w=w, R=R, gen=g, ovr=w.cell(T_ID, 'is_override'), stamp=stp, fs0=w.fs_stamp(tuple(T_NAME)),
                   dofiles=[dn for dn in DO_NAMES if w.fs_stamp(tuple(dn)) is not None])
@@ -848,6 +859,14 @@ PRESTATES = {
                                 stamp=tuple(S1), csum=None), None),
     'failed-last-time': (dict(is_generated=True, is_override=False, checked_runid=None, changed_runid=5, failed_runid=6,
                               stamp=tuple(S1), csum=None), tuple(S1)),
+    # redo-stamp ran for it in this very run (R = 10): record_new_state takes its "stamped" branch
+    'checksummed-stamped-this-run': (dict(is_generated=True, is_override=False, checked_runid=10, changed_runid=5, failed_runid=None,
+                                          stamp=tuple(S1), csum=tuple(b'abc')), tuple(S1)),
+    'checksummed': (dict(is_generated=True, is_override=False, checked_runid=None, changed_runid=5, failed_runid=None,
+                         stamp=tuple(S1), csum=tuple(b'abc')), tuple(S1)),
+    # the user had replaced it by hand (marked overridden) and has now removed it again: redo's target once more
+    'overridden-then-removed': (dict(is_generated=True, is_override=True, checked_runid=None, changed_runid=5, failed_runid=None,
+                                     stamp=tuple(S2), csum=None), None),
 }
 
 
@@ -926,7 +945,9 @@ def crash_facts(chk, pid):
         out = eng.choose(2, 'script wrote stdout')
         has3 = eng.choose(2, 'script created $3') if not out else 0
         declares = eng.choose(2, 'script declared its source')
-        st['script'] = dict(rv=rv, stdout=out, has3=has3, declares=declares)
+        # redo-stamp <$3 (or of what it printed): 0 = not called, 1 = digest differs from the recorded one, 2 = same digest
+        stamps = eng.choose(3 if chk.thorough() else 2, 'script ran redo-stamp') if (out or has3) and rv == 0 and declares else 0
+        st['script'] = dict(rv=rv, stdout=out, has3=has3, declares=declares, stamps=stamps)
         if declares:
             w.effect('script-declares-dep')
             w.deps[(T_ID, SRC_ID)] = {'mode': tuple(b'm'), 'delete_me': 0}
@@ -943,6 +964,16 @@ def crash_facts(chk, pid):
             w.effect('script-creates-$3')
             w.fs[tuple(TMP_NAME)] = w.fresh_stamp()
             w.content[tuple(TMP_NAME)] = '$3'
+        if stamps:
+            # what `redo-stamp` (bin/redo/stamp.rs, decided separately by C03's stamp obligation) commits for REDO_TARGET
+            w.effect('script-redo-stamp')
+            row = w.files[T_ID]
+            row['is_generated'] = True
+            if stamps == 1:
+                row.update(changed_runid=R, failed_runid=None, is_override=False, csum=tuple(b'newsum'))
+            else:
+                row['checked_runid'] = R
+            w.db_committed = w.snap_db()
         w.script_rv = rv
         cx = new_cell(Struct('Context', [Opaque('Waker', 'noop')]))
         p = eng.call('<X as Future>::poll', [r.f[0], cx], None, None)
